@@ -28,7 +28,11 @@ KWSETS = [{}, {"a": 1}, {"a": 1, "b": 2}, {"b": 2, "a": 1}, {"a": [1, 2]}, {"a":
           {"a": None}, {"z": "s", "a": 1.0}, {"a": 1.0}, {"a": True},
           # nested containers: the documented key (json.dumps(..., sort_keys=True)) canonicalises nested dicts too
           {"a": {"x": 1, "y": 2}}, {"a": {"y": 2, "x": 1}}, {"a": [{"p": 1, "q": [1, 2]}]}, {"a": [{"q": [1, 2], "p": 1}]},
-          {"a": {"x": 1, "y": 2}, "b": 0}, {"b": 0, "a": {"y": 2, "x": 1}}]
+          {"a": {"x": 1, "y": 2}, "b": 0}, {"b": 0, "a": {"y": 2, "x": 1}},
+          # keyword names an implementation might use for its own parameters
+          # (not "cls" / "obj": those are the documented first parameters of check_/drop_/add_mapping themselves)
+          {"key": 1}, {"instances": 2, "hashid": 3}, {"factory": 0, "hashfunc": 1}, {"args": 1, "kwargs": 2}, {"name": "n"},
+          {"self_": 1, "mcls": 2}]
 
 INIT_LOG = []
 
@@ -88,18 +92,26 @@ def make_classes():
                     v.setdefault("normalised", True)
             self.args = args
 
+    class Picky(Base, metaclass=singleton.semi_singleton_metaclass()):
+        """__init__ refuses some arguments (validation): a failed construction must leave no mapping behind."""
+
+        def __init__(self, *args, **kwargs):
+            if args and args[0] in (-2, "a", 2):
+                raise ValueError("refused")
+            super().__init__(*args, **kwargs)
+
     class SVertex(Vertex, metaclass=singleton.semi_singleton_metaclass()):
         def __init__(self, *args, **kwargs):
             INIT_LOG.append((type(self).__name__, id(self), args, dict(kwargs)))
             super().__init__()
 
-    classes = {c.__name__: c for c in (Own1, Own2, SharedA, SharedB, Parent, Child, Custom, SVertex, EmptyBag, Normalizer)}
+    classes = {c.__name__: c for c in (Own1, Own2, SharedA, SharedB, Parent, Child, Custom, SVertex, EmptyBag, Normalizer, Picky)}
     return classes
 
 
-CLASS_NAMES = ["Own1", "Own2", "SharedA", "SharedB", "Parent", "Child", "Custom", "SVertex", "EmptyBag", "Normalizer"]
+CLASS_NAMES = ["Own1", "Own2", "SharedA", "SharedB", "Parent", "Child", "Custom", "SVertex", "EmptyBag", "Normalizer", "Picky"]
 ARRANGEMENT = {"Own1": "own", "Own2": "own", "SharedA": "shared_metaclass", "SharedB": "shared_metaclass",
-               "Parent": "subclassing", "Child": "subclassing", "Custom": "custom_hashfunc", "SVertex": "vertex_subclass", "EmptyBag": "falsy_instances", "Normalizer": "init_mutates_arguments"}
+               "Parent": "subclassing", "Child": "subclassing", "Custom": "custom_hashfunc", "SVertex": "vertex_subclass", "EmptyBag": "falsy_instances", "Normalizer": "init_mutates_arguments", "Picky": "init_may_raise"}
 
 
 def model_key(cname, args, kwargs):
@@ -172,12 +184,25 @@ def run_history(ctx, ops, record=True):
             n0 = len(INIT_LOG)
             res = oracles.outcome(cls, *args, **kwargs)
             kwargs = passed_kwargs
-            if res[0] != "ok":
+            if res[0] != "ok" and cname == "Picky" and key not in model[cname] and res[1] is ValueError:
+                # the constructor refused: no instance was handed out, so no mapping may exist (checked below through
+                # get_all / check_exists and by every later construction with this key)
+                refused = True
+            elif res[0] != "ok":
                 viol(f"construct:raised:{res[1].__name__}", f"{cname}{args}{kwargs} raised", k)
                 break
-            obj = res[1]
-            ninit = len(INIT_LOG) - n0
-            if key in model[cname]:
+            if res[0] != "ok":
+                obj, ninit = None, 0
+            else:
+                obj = res[1]
+                ninit = len(INIT_LOG) - n0
+            if res[0] != "ok":
+                exists = oracles.outcome(singleton.check_semi_singleton_entry_exists, cls, *_args(op)[0], **_args(op)[1])
+                if exists[0] != "ok" or exists[1] is not None:
+                    viol("construct:failed_init_left_a_mapping", "the constructor raised, yet check_semi_singleton_entry_exists "
+                         "reports an instance for that key", k)
+                    break
+            elif key in model[cname]:
                 hits += 1
                 exp = model[cname][key]
                 if obj is not exp:
@@ -300,7 +325,7 @@ def prelude():
     """Seed-independent scripts that make every arrangement x situation appear."""
     out = []
     for a, b in (("Own1", "Own2"), ("SharedA", "SharedB"), ("Parent", "Child"), ("Child", "Parent"), ("Custom", "Own1"),
-                 ("SVertex", "Own1"), ("SharedB", "SharedA"), ("EmptyBag", "Own1"), ("Own2", "EmptyBag"), ("Normalizer", "Own1")):
+                 ("SVertex", "Own1"), ("SharedB", "SharedA"), ("EmptyBag", "Own1"), ("Own2", "EmptyBag"), ("Normalizer", "Own1"), ("Picky", "Own2")):
         for v1, v2 in ((0, 1), (2, 3), (5, 6), (12, 13), (19, 20), (9, 9)):
             out.append([
                 {"op": "new", "c": a, "a": [v1], "k": 0, "i": 0},
@@ -368,8 +393,25 @@ def _fmt(o):
     return f"{o['op']} {o['c']}({', '.join(x for x in (a, kw) if x)})"
 
 
+def probe_keyword_named_cls(ctx):
+    """A class whose constructor takes a keyword argument called `cls` (legal for any ordinary class)."""
+    classes = make_classes()
+    for cname in ("Own1", "SharedA", "Child"):
+        r1 = oracles.outcome(classes[cname], 1, cls="x")
+        r2 = oracles.outcome(classes[cname], 1, cls="x")
+        ctx.evaluated()
+        ctx.count("keyword_named_cls_probes")
+        if r1[0] != "ok" or r2[0] != "ok" or r1[1] is not r2[1]:
+            ctx.violation("construct:keyword_named_cls_rejected",
+                          f"{cname}(1, cls='x') -> {r1[1].__name__ if r1[0] != 'ok' else 'ok'}: the metaclass __call__(cls, *args, "
+                          f"**kwargs) cannot be given a keyword argument named cls", {"probe": "keyword_named_cls"})
+            return
+
+
 def run(ctx):
     rng = random.Random(ctx.seed * 1299709 + ctx.shard * 11 + 17)
+    if ctx.shard == 0:
+        probe_keyword_named_cls(ctx)
     quick = ctx.tier == "quick"
     pre = prelude()
     for n, ops in enumerate(pre):
@@ -389,6 +431,11 @@ def run(ctx):
 
 
 def replay(ctx, case):
+    if case.get("probe") == "keyword_named_cls":
+        probe_keyword_named_cls(ctx)
+        ctx.nontrivial("replay-a")
+        ctx.nontrivial("replay-b")
+        return
     judge(ctx, case["ops"])
     ctx.nontrivial("replay-a")
     ctx.nontrivial("replay-b")
